@@ -246,7 +246,8 @@ PROPS["C01"] = dict(
                "history acceptance of the real Buffer against the extracted model."
                " Added after the statement audit (DESIGN 5b): schedules with an arbitrary cleaner function at every cleaner run (grun), creation base, first-occurrence order, re-read only after Rollback.",
     level_note=_BUF_NOTE,
-    stages=[corr_stage("BUFK1", 4000, 8000, feature=feat_buf("C01"), seeds=3)],
+    stages=[corr_stage("BUFK1", 4000, 8000, feature=feat_buf("C01"), seeds=3),
+            corr_stage("C01BIG", 6, 60, validate=False)],
 )
 PROPS["C02"] = dict(
     rule="BUFK1 (see C01) including bigbuff.Range and Buffer.Range with scripted callbacks (continue/stop/panic); non-trivial = history with a "
@@ -259,7 +260,8 @@ PROPS["C02"] = dict(
                "a value put by a callback is in the log before that value's Commit, Buffer.Range stops at the end of the buffer with nil and never blocks."
                " Added (DESIGN 5b): Range/Buffer.Range under an arbitrary interleaved environment and with reads pending at entry (C02_range_env_*), composed replay after Rollback; two clauses refuted as worded with the exact caveat.",
     level_note=_BUF_NOTE + " The Range theorems are about the interleaving-free composite; interleavings with the cleaner are explored by the checker only.",
-    stages=[corr_stage("BUFK1", 4000, 8000, feature=feat_buf("C02"), seeds=3, params={"salt": 2})],
+    stages=[corr_stage("BUFK1", 4000, 8000, feature=feat_buf("C02"), seeds=3, params={"salt": 2}),
+            corr_stage("C02SHARED", 60, 600, validate=False)],
 )
 def c04_trace_params(exe):
     return {"ptfile": os.path.join(os.path.dirname(exe), "instr", "points.txt")}
@@ -370,7 +372,8 @@ PROPS["C03"] = dict(
          "max,target in -1..8 x size 0..8 x 6 offset lists, plus seeded large values; Go result must equal the model. non-trivial = "
          "offset list mixing negative and positive offsets, or a forced trim (size > max)",
     stages=[corr_stage("C03F", 6000, 40000, params=None, feature=feat_c03, tparams={"maxlen": 4}),
-            corr_stage("BUFK1", 2000, 5000, feature=feat_buf("C03"), params={"salt": 3, "cleanermix": 1})],
+            corr_stage("BUFK1", 2000, 5000, feature=feat_buf("C03"), params={"salt": 3, "cleanermix": 1}),
+            corr_stage("C03SLICE", 10, 100, validate=False)],
 )
 
 
